@@ -26,7 +26,7 @@ import (
 func c10Families(tier fw.Tier) []docFamily {
 	return cachedFamilies("c10/"+string(tier), func() []docFamily {
 		var fs []docFamily
-		for _, f := range c01Families(tier) {
+		for _, f := range sharedFamilies(tier) {
 			switch f.name {
 			case "FD1", "FD2", "FA1", "FC-time", "FC-duration":
 				fs = append(fs, f)
@@ -41,7 +41,7 @@ func init() {
 		ID:    "C10",
 		Title: "Syntax errors are reported at the right place and can always be displayed",
 		Rule: "all klog-rejected texts among: every single rule-violating edit (90 operators x every line of ~100 valid base documents: first/middle/last line, inside multi-line summaries, after blank runs, any record), " +
-			"pairs of edits (6 bases quick / 40 thorough), the invalid members of FA1 (second open range) and of the time/duration literal sweeps; each parsed serially and with 2 and 3 workers. " +
+			"pairs of edits (6 bases quick / 60 thorough), the invalid members of FA1 (second open range) and of the time/duration literal sweeps; each parsed serially and with 2 and 3 workers. " +
 			"non-trivial = rejected by klog; distinct by text hash. The expected first faulty line comes from the reference parser (first physical line at which no continuation of the grammar exists).",
 		Assumptions: []string{
 			"independent physical-line splitter; specmodel.Parse for the first offending line (only for texts without don't-care zones and without Zs-only lines, see known finding KF-C01-zs-blank-line)",
